@@ -71,6 +71,18 @@ def gen(rng, k):
         if p["w"] is not None:
             p["w"] = rng.uniform(0.1, 10, len(ref))
         k = 0       # (not the integer-dtype variant below)
+    if k % 8 == 5:
+        # centres that coincide with something: a corner of the bounding box of the reference points, one of the reference points,
+        # their mean, or the default centre with the points moved so that their largest (smallest) coordinate is exactly 0
+        r_ = np.asarray(p["ref"], dtype=np.float64)
+        mode = (k // 8) % 6
+        if mode < 4:
+            p["center"] = np.array([(r_[:, 0].max(), r_[:, 0].min())[mode % 2], (r_[:, 1].max(), r_[:, 1].min())[mode // 2]])
+        elif mode == 4:
+            p["center"] = r_[int(np.argmax(r_.sum(axis=1)))].copy() if (k // 48) % 2 == 0 else r_.mean(axis=0)
+        else:
+            p["ref"] = r_ - (r_.max(axis=0) if (k // 48) % 2 == 0 else r_.min(axis=0))
+            p["center"] = None if (k // 96) % 2 == 0 else (0.0, 0.0)
     # reference positions kept as integer pixel positions (integer dtype) by the caller, fractional centre
     p["int_ref"] = (k // 12) % 3 == 1 and np.linalg.matrix_rank(np.hstack([np.round(ref), np.ones((len(ref), 1))]), tol=1e-3) == 3
     return p
